@@ -84,6 +84,8 @@ def main():
             if not os.path.exists(mp):
                 continue
             meta = json.load(open(mp))
+            if meta.get("status") == "superseded":
+                continue
             props = meta.get("checked_by") or [meta["property"]]
             r = check(sd, props)
             caught = any(v.get("exit") == 1 for v in r.values() if isinstance(v, dict))
